@@ -118,8 +118,50 @@ def _to_hs(n):
     raise AssertionError(k)
 
 
+BUILD = None          # None | 'reordered': same grid, its ordered maps filled in another order and then re-ordered
+
+
+def _initial(items, how):
+    """The order in which the items are first put in, for re-ordering method `how`."""
+    items = list(items)
+    if how in (0, 3):
+        return items[::-1]
+    if how == 1:
+        return sorted(items, key=lambda kv: kv[0], reverse=True)
+    return items[1:] + items[:1]
+
+
+def _reorder(sd, names, how):
+    """Bring the ordered map sd (filled in _initial order) into the order `names` through its re-ordering API."""
+    if how == 0:
+        sd.reverse()
+    elif how == 1:
+        sd.sort(key=names.index)
+    elif how == 2:
+        if names:
+            sd.add_item(names[0], sd[names[0]], index=0)
+    else:
+        for i, k in enumerate(names):
+            sd.add_item(k, sd[k], index=i)
+
+
 def to_grid(n):
     _, ver, meta, cols, rows = n
+    if BUILD == 'reordered':
+        # everything goes through the Grid (constructor, metadata stores, append), only in another order first
+        how = (len(cols) + len(meta) + len(rows)) % 4
+        how2 = (how + 1) % 4
+        g = hszinc.Grid(version=ver,
+                        columns=[(c, [(k, to_hs(v)) for k, v in _initial(m, how2)]) for c, m in _initial(cols, how)])
+        for k, v in _initial(meta, how):
+            g.metadata[k] = to_hs(v)
+        _reorder(g.metadata, [k for k, _ in meta], how)
+        _reorder(g.column, [c for c, _ in cols], how)
+        for c, m in cols:
+            _reorder(g.column[c], [k for k, _ in m], how2)
+        for row in rows:
+            g.append(dict((c, to_hs(v)) for c, v in reversed(row)))
+        return g
     g = hszinc.Grid(version=ver,
                     metadata=dict((k, to_hs(v)) for k, v in meta) if meta else None,
                     columns=[(c, [(k, to_hs(v)) for k, v in m]) for c, m in cols])
